@@ -88,7 +88,7 @@ def census(w) -> dict:
         out.pop(k, None)      # the recording application's own lists, not library state
     h = w.h
     out["threads.connection_workers_alive"] = sum(1 for c in h.conns for t in (c._read_thread, c._write_thread)
-                                                  if t.is_alive())
+                                                  if t is not None and t.is_alive())
     out["threads.request_threads_alive"] = sum(1 for t in h.request_threads if t.is_alive())
     out["sockets.open"] = sum(1 for s in h.sockets if not s.closed and not (s.role == "outbound" and s.peer is None
                                                                              and not s.connect_pending))
@@ -145,7 +145,7 @@ class Kind:
         for c in self.h.conns:
             if c.state == PEER_CLOSED and self.w.node.connections.get(c.ident) is not c:
                 for role, t in (("read", c._read_thread), ("write", c._write_thread)):
-                    if t.is_alive() and t.is_stopped:
+                    if t is not None and t.is_alive() and t.is_stopped:
                         first = seen.setdefault(id(t), now)
                         if not overdue_only or now - first > self.STUCK_AFTER_S:
                             stuck.append(role)
@@ -476,7 +476,8 @@ class Kind:
         # give stopped workers their (scaled) poll period to exit
         end = time.time() + 60 * h.poll
         while time.time() < end:
-            if not any(t.is_alive() and t.is_stopped for c in h.conns for t in (c._read_thread, c._write_thread)):
+            if not any(t is not None and t.is_alive() and t.is_stopped for c in h.conns
+                       for t in (c._read_thread, c._write_thread)):
                 break
             time.sleep(0.002)
         return census(w)
